@@ -11,6 +11,50 @@ RT = 'mistral.engine.tasks.RegularTask'
 WC = 'mistral.workflow.base.WorkflowController'
 
 
+def recursive_rerun(ctx, rule):
+    prog = ctx.prog
+    rc = prog.func(WF + '._recursive_rerun')
+    cfg = ctx.cfg(rc)
+    st = U.calls_in(cfg, 'set_state')
+    lk = cfg.calls(lambda c: U.call_name(c) == 'lock')
+    rec = U.calls_in(cfg, '_recursive_rerun')
+    mk = U.calls_in(cfg, 'mark_task_running')
+    ok = bool(st) and bool(lk) and bool(rec) and bool(mk) and \
+        norm(st[0][1].args[0]) == 'states.RUNNING' and \
+        cfg.dominates(lk[0][0], rec[0][0]) and \
+        cfg.dominates(rec[0][0], mk[0][0])
+    rule.check(ok, ctx.construct(rc), 'parents are not locked, re-run and '
+             'their task marked RUNNING in that order', ctx.loc(rc))
+    for n, c in rec + mk:
+        g = U.polarity_guard(
+            cfg, n, lambda t: norm(t) == 'self.wf_ex.task_execution_id')
+        rule.check(g is not None and g[1] is True,
+                 ctx.construct(rc, extra=U.call_name(c) + ' only with '
+                               'parent'),
+                 'recursion into a parent without a parent task id',
+                 ctx.loc(rc, c))
+    # the walk up to the parents does not depend on this workflow's own
+    # state (it may still be RUNNING because of a parallel branch while an
+    # enclosing workflow has already failed), only on having a parent
+    for n, c in st + rec + mk:
+        facts = sorted((norm(a), t) for a, t in U.guard_atoms(cfg, n))
+        want = [] if (n, c) in st else [('self.wf_ex.task_execution_id',
+                                         True)]
+        rule.check(facts == want,
+                 ctx.construct(rc, extra=U.call_name(c) + ' whatever the '
+                               'state of this workflow'),
+                 '%s in _recursive_rerun is additionally conditioned (%s): '
+                 'enclosing workflows / parent tasks are not put back to '
+                 'RUNNING and the new result of the re-run task is never '
+                 'taken into account' % (U.call_name(c), facts),
+                 ctx.loc(rc, c))
+    mt = prog.func('mistral.engine.task_handler.mark_task_running')
+    rule.check(any(isinstance(n, ast.Call) and U.call_name(n) == 'set_state'
+                 and norm(n.args[0]) == 'states.RUNNING'
+                 for n in own_nodes(mt.node)), ctx.construct(mt),
+             'parent task is not set RUNNING', ctx.loc(mt))
+
+
 def run(ctx):
     _run(ctx)
     r6 = ctx.rule('R6', 'a partial rerun selects exactly the completed, '
@@ -224,46 +268,7 @@ def _run(ctx):
              'the task runtime context (policy counters, with-items '
              'capacity) is not cleaned whenever the task is re-run - e.g. '
              'only with reset', ctx.loc(rr))
-    rc = prog.func(WF + '._recursive_rerun')
-    cfg = ctx.cfg(rc)
-    st = U.calls_in(cfg, 'set_state')
-    lk = cfg.calls(lambda c: U.call_name(c) == 'lock')
-    rec = U.calls_in(cfg, '_recursive_rerun')
-    mk = U.calls_in(cfg, 'mark_task_running')
-    ok = bool(st) and bool(lk) and bool(rec) and bool(mk) and \
-        norm(st[0][1].args[0]) == 'states.RUNNING' and \
-        cfg.dominates(lk[0][0], rec[0][0]) and \
-        cfg.dominates(rec[0][0], mk[0][0])
-    r3.check(ok, ctx.construct(rc), 'parents are not locked, re-run and '
-             'their task marked RUNNING in that order', ctx.loc(rc))
-    for n, c in rec + mk:
-        g = U.polarity_guard(
-            cfg, n, lambda t: norm(t) == 'self.wf_ex.task_execution_id')
-        r3.check(g is not None and g[1] is True,
-                 ctx.construct(rc, extra=U.call_name(c) + ' only with '
-                               'parent'),
-                 'recursion into a parent without a parent task id',
-                 ctx.loc(rc, c))
-    # the walk up to the parents does not depend on this workflow's own
-    # state (it may still be RUNNING because of a parallel branch while an
-    # enclosing workflow has already failed), only on having a parent
-    for n, c in st + rec + mk:
-        facts = sorted((norm(a), t) for a, t in U.guard_atoms(cfg, n))
-        want = [] if (n, c) in st else [('self.wf_ex.task_execution_id',
-                                         True)]
-        r3.check(facts == want,
-                 ctx.construct(rc, extra=U.call_name(c) + ' whatever the '
-                               'state of this workflow'),
-                 '%s in _recursive_rerun is additionally conditioned (%s): '
-                 'enclosing workflows / parent tasks are not put back to '
-                 'RUNNING and the new result of the re-run task is never '
-                 'taken into account' % (U.call_name(c), facts),
-                 ctx.loc(rc, c))
-    mt = prog.func('mistral.engine.task_handler.mark_task_running')
-    r3.check(any(isinstance(n, ast.Call) and U.call_name(n) == 'set_state'
-                 and norm(n.args[0]) == 'states.RUNNING'
-                 for n in own_nodes(mt.node)), ctx.construct(mt),
-             'parent task is not set RUNNING', ctx.loc(mt))
+    recursive_rerun(ctx, r3)
 
     # ---- R4 reset / skip semantics ------------------------------------------------------
     r4 = ctx.rule('R4', 'partial rerun re-accepts only failed items; skip '
